@@ -77,6 +77,100 @@ pub fn main(args: &Args) -> i32 {
     rep.write(args)
 }
 
+/// In-process hammer on `PayloadSource::{diff, full}` while the updater
+/// installs several hundred data sets, each carrying a marker origin whose
+/// AS number encodes the serial it is installed under.  Every answer must
+/// lead to the data set of the serial it is tagged with.
+fn diff_hammer(rep: &mut Report, args: &Args) {
+    use std::sync::atomic::{AtomicBool, Ordering};
+    use rpki::rtr::payload::PayloadRef;
+    use rpki::rtr::server::{PayloadDiff, PayloadSet, PayloadSource};
+    let updates = if args.thorough() { 60000 } else { 8000 };
+    let cfg = super::history::config(8);
+    let history = routinator::payload::SharedHistory::from_config(&cfg);
+    let marker = |serial: u32| -> DataSet {
+        let mut d: DataSet = concrete(1 + (serial % 3) as i64).into_iter().collect();
+        d.insert(("192.0.2.0/24".to_string(), 24, 70000 + serial));
+        d
+    };
+    let install = |serial: u32| {
+        let report = routinator::payload::ValidationReport::new(&cfg);
+        let set: std::collections::BTreeSet<(String, u8, u32)> = marker(serial).into_iter().collect();
+        history.update(report, &slurm(&set), routinator::metrics::Metrics::new());
+        history.mark_update_done();
+    };
+    install(0);
+    let session = history.read().rtr_session();
+    let stop = AtomicBool::new(false);
+    let found: std::sync::Mutex<Vec<String>> = std::sync::Mutex::new(Vec::new());
+    let queries = std::sync::atomic::AtomicU64::new(0);
+    std::thread::scope(|scope| {
+        for _ in 0..3 {
+            scope.spawn(|| {
+                let mut have: (u32, DataSet) = (0, marker(0));
+                while !stop.load(Ordering::Relaxed) {
+                    queries.fetch_add(1, Ordering::Relaxed);
+                    match history.diff(rpki::rtr::State::from_parts(session, have.0.into())) {
+                        Some((state, mut diff)) => {
+                            let mut data = have.1.clone();
+                            while let Some((p, a)) = diff.next() {
+                                if let PayloadRef::Origin(o) = p {
+                                    let item = (format!("{}/{}", o.prefix.addr(), o.prefix.prefix_len()), o.prefix.resolved_max_len(), o.asn.into_u32());
+                                    if a.is_announce() { data.insert(item); } else { data.remove(&item); }
+                                }
+                            }
+                            let ser = u32::from(state.serial());
+                            if data != marker(ser) {
+                                found.lock().unwrap().push(format!(
+                                    "serial query from {} answered with serial {} but the change set leads to markers {:?}",
+                                    have.0, ser, data.iter().filter(|x| x.2 >= 70000).map(|x| x.2 - 70000).collect::<Vec<_>>()));
+                                // resynchronise
+                                let (st, mut set) = history.full();
+                                let mut d = DataSet::new();
+                                while let Some(p) = set.next() { if let PayloadRef::Origin(o) = p {
+                                    d.insert((format!("{}/{}", o.prefix.addr(), o.prefix.prefix_len()), o.prefix.resolved_max_len(), o.asn.into_u32())); } }
+                                have = (u32::from(st.serial()), d);
+                            } else {
+                                have = (ser, data);
+                            }
+                        }
+                        None => {
+                            let (st, mut set) = history.full();
+                            let mut d = DataSet::new();
+                            while let Some(p) = set.next() { if let PayloadRef::Origin(o) = p {
+                                d.insert((format!("{}/{}", o.prefix.addr(), o.prefix.prefix_len()), o.prefix.resolved_max_len(), o.asn.into_u32())); } }
+                            let ser = u32::from(st.serial());
+                            if d != marker(ser) {
+                                found.lock().unwrap().push(format!("reset answered with serial {ser} but its data carries markers {:?}",
+                                    d.iter().filter(|x| x.2 >= 70000).map(|x| x.2 - 70000).collect::<Vec<_>>()));
+                            }
+                            have = (ser, d);
+                        }
+                    }
+                }
+            });
+        }
+        for s in 1..=updates {
+            install(s);
+            if s % 16 == 0 { std::thread::yield_now(); }
+        }
+        std::thread::sleep(Duration::from_millis(20));
+        stop.store(true, Ordering::Relaxed);
+    });
+    let q = queries.load(Ordering::Relaxed);
+    rep.evals("C15", q);
+    rep.add_note("C15", "in_process_queries_during_updates", q);
+    rep.nontrivial("C15", "diff-hammer");
+    rep.trace("C15");
+    let found = found.into_inner().unwrap();
+    if let Some(first) = found.first() {
+        rep.violation("C15", "rtr-serial-data-mismatch/concurrent-update",
+            format!("{} of {q} RTR answers computed while data sets were being installed pair a serial with foreign data; first: {first}", found.len()),
+            json!({"probe": "in-process PayloadSource::diff/full hammer during updates", "updates": updates, "seed": args.seed}),
+            json!({"examples": found.iter().take(5).collect::<Vec<_>>()}));
+    }
+}
+
 fn one(rep: &mut Report, gate: &std::sync::Arc<Gate>, b: &Value, idx: usize) {
     let steps = b["steps"].as_array().unwrap();
     let shape: Vec<String> = steps.iter().map(|s| format!("{}:{}", s["s"].as_str().unwrap(), s["a"])).collect();
@@ -534,6 +628,7 @@ fn freerun(args: &Args, out: &str) -> i32 {
         rep.trace("C15");
         rep.nontrivial("C15", format!("freerun-{round}"));
     }
+    diff_hammer(&mut rep, args);
     rep.write(args)
 }
 
